@@ -115,6 +115,39 @@ Theorem C02_every_error_return_serves_nothing : forall (is_ip : bytes -> bool) c
 Proof. exact gen_front_outcomes. Qed.
 Print Assumptions C02_every_error_return_serves_nothing.
 
+(** ** Exact names
+
+    Server.endpoint is one map index on the name (emitted: [gen_endpoint_lookup]
+    = RegExactIndex).  With the registry an exact table - whatever else is
+    registered, names differing only in letter case included - a destination
+    name under which nothing registered with exactly these bytes is refused:
+    endpoint not connected, nothing dialled, nothing served. *)
+Theorem C02_unconnected_name_never_served_by_a_variant :
+  forall (is_ip : bytes -> bool) has_home lk (l : list (bytes * N)) sni d,
+  gen_endpoint_lookup = RegExactIndex /\
+  (lk sni = mkLk (Some d) false -> d_home d = false -> d_forward d = [] ->
+   ~ In (d_name d) (map fst l) ->
+   let r := decide is_ip gen_rejected_suffixes (mkCfg true lk has_home (reg_exact l)) sni in
+   endpoint_dials r = [] /\ served r = false /\ refusal r = true).
+Proof.
+  exact (fun is_ip has_home lk l sni d =>
+           conj gen_endpoint_lookup_exact
+                (unconnected_name_never_served_by_a_variant is_ip gen_rejected_suffixes has_home lk l sni d)).
+Qed.
+Print Assumptions C02_unconnected_name_never_served_by_a_variant.
+
+(** A lookup that folds letter case (seeded change C02-j): refuted - only
+    "team" is connected, the lookup answers "Team": refused by the exact table,
+    dialled to team's endpoint by the folding one. *)
+Theorem C02_unconnected_name_never_served_by_a_variant_refuted :
+  let team := [116; 101; 97; 109]%N in let Team := [84; 101; 97; 109]%N in
+  let l := [(team, 1%N)] in
+  let lk := fun _ : bytes => mkLk (Some (mkDest Team false [])) false in
+  decide (fun _ => false) gen_rejected_suffixes (mkCfg true lk false (reg_exact l)) [120]%N = RNotFound Team /\
+  decide (fun _ => false) gen_rejected_suffixes (mkCfg true lk false (reg_folding lower l)) [120]%N = REndpoint 1 Team.
+Proof. exact gen_folding_registry_refuted. Qed.
+Print Assumptions C02_unconnected_name_never_served_by_a_variant_refuted.
+
 (** ** At dial time
 
     The configured Lookup is not a constant function and the registry moves:
@@ -309,6 +342,7 @@ Theorem C02_source_tie :
    list_eqb String.eqb gen_lookup_callers ["Server.dial"%string] = true /\
    gen_lookup_calls_in_dial = 1%nat /\ lookup_steps gen_dial_steps = 1%nat) /\
   list_eqb host_step_eqb gen_host_steps deployed_host_steps = true /\
+  gen_endpoint_lookup = RegExactIndex /\
   reject_before_dialb = true /\
   list_eqb String.eqb gen_host_conn_calls deployed_host_conn_calls = true /\
   (gen_lock_violations = [] /\
@@ -316,9 +350,9 @@ Theorem C02_source_tie :
   RouteGen.src_diff gen_route_src frozen_route_src = [].
 Proof.
   exact (conj gen_rejected_steps_eq (conj gen_suffixes_eq (conj gen_dial_steps_deployed
-          (conj gen_dial_lookup_err_guarded (conj gen_lookup_store_direct (conj gen_host_steps_deployed
+          (conj gen_dial_lookup_err_guarded (conj gen_lookup_store_direct (conj gen_host_steps_deployed (conj gen_endpoint_lookup_exact
           (conj gen_reject_before_dial (conj gen_host_conn_calls_deployed
-            (conj gen_lock_skeleton gen_route_src_frozen))))))))).
+            (conj gen_lock_skeleton gen_route_src_frozen)))))))))).
 Qed.
 Print Assumptions C02_source_tie.
 
